@@ -72,6 +72,19 @@ def run_variant(prop: str, edits: List[Edit], src_root: Optional[str] = None, ti
         shutil.rmtree(d, ignore_errors=True)
 
 
+def run_patch(prop: str, patch_path: str, src_root: Optional[str] = None, tier: str = "quick") -> Tuple[int, str]:
+    """apply a unified diff (paths relative to the repository root) to a scratch copy and run the check on it"""
+    src_root = src_root or os.environ.get("A5_REPO", "/repo")
+    d = make_copy(src_root)
+    try:
+        r = subprocess.run(["git", "apply", "--unsafe-paths", "--directory", d, os.path.abspath(patch_path)], cwd="/", capture_output=True, text=True)
+        if r.returncode:
+            raise EditError(f"{patch_path}: {r.stderr.strip()[:160]}")
+        return run_check(prop, d, tier)
+    finally:
+        shutil.rmtree(d, ignore_errors=True)
+
+
 if __name__ == "__main__":
     # ad-hoc:  python sa/mutate.py C05 a5/core/serialization.py 'old' 'new'
     prop, rel, old, new = sys.argv[1:5]
